@@ -111,10 +111,32 @@ func genTraceProgram(r *Rand) traceParams {
 	}
 	frames := make([]traceFrame, k+1)
 	var kinds []string
+	// one async link of the chain may be reached through a recursive async helper that
+	// awaits itself on one line: consecutive frames of the trace are then equal (same
+	// function, same line) and each of them still has to be listed
+	recIdx, recDepth := 0, 0
+	var recFrames []traceFrame
+	if r.Chance(0.35) {
+		var cand []int
+		for i := 2; i <= k; i++ {
+			if async[i] {
+				cand = append(cand, i)
+			}
+		}
+		if len(cand) > 0 {
+			recIdx, recDepth = Pick(r, cand), r.Range(1, 3)
+		}
+	}
 	nw := 0
 	// callForm emits the statements that call fn(i+1) inside indent and returns the line of the frame
 	callForm := func(ind string, next int, arg string) int {
 		callee := fmt.Sprintf("fn%d(%s)", next, arg)
+		calleeHead := fmt.Sprintf("fn%d(", next)
+		if next == recIdx {
+			arg = fmt.Sprintf("%s, %d", arg, recDepth)
+			callee = fmt.Sprintf("fn%d_r(%s)", next, arg)
+			calleeHead = fmt.Sprintf("fn%d_r(", next)
+		}
 		// the statement that carries the call / await may span several lines: the frame
 		// reports the line on which the call site starts
 		multi := r.Chance(0.4)
@@ -122,7 +144,7 @@ func genTraceProgram(r *Rand) traceParams {
 			if !multi {
 				return emit(ind + prefix + callee + suffix)
 			}
-			first := emit(fmt.Sprintf("%s%sfn%d(", ind, prefix, next))
+			first := emit(ind + prefix + calleeHead)
 			emit(ind + "  " + arg)
 			emit(ind + ")" + suffix)
 			return first
@@ -204,6 +226,24 @@ func genTraceProgram(r *Rand) traceParams {
 		}
 		emit("end")
 		emit("")
+		if i == recIdx {
+			name := fmt.Sprintf("fn%d_r", i)
+			emit(fmt.Sprintf("async def %s(x: Int, d: Int): Int", name))
+			emit("  r := 0")
+			emit("  if d == 0")
+			l0 := emit(fmt.Sprintf("    r = await fn%d(x)", i))
+			emit("  else")
+			l1 := emit(fmt.Sprintf("    r = await %s(x, d - 1)", name))
+			emit("  end")
+			emit("  r")
+			emit("end")
+			emit("")
+			for j := 0; j < recDepth; j++ {
+				recFrames = append(recFrames, traceFrame{Func: name, Line: l1})
+			}
+			recFrames = append(recFrames, traceFrame{Func: name, Line: l0})
+			kinds = append(kinds, "recursive_async_same_line")
+		}
 	}
 	// background noise that keeps the workers busy
 	for j := 0; j < r.Intn(3); j++ {
@@ -212,6 +252,11 @@ func genTraceProgram(r *Rand) traceParams {
 	emit("println \"start\"")
 	frames[0] = traceFrame{Func: "", Line: callForm("", 1, "1")}
 	emit("println \"unreachable ${r}\"")
+	if recIdx > 0 {
+		flat := append([]traceFrame{}, frames[:recIdx]...)
+		flat = append(flat, recFrames...)
+		frames = append(flat, frames[recIdx:]...)
+	}
 	return traceParams{Src: strings.Join(lines, "\n") + "\n", Frames: frames, Kinds: kinds}
 }
 
